@@ -1,5 +1,6 @@
 """C07  Safe ML environment mediates every global, including in nested unpicklings."""
 import io
+import itertools
 import os
 import struct
 
@@ -60,6 +61,9 @@ FOREIGN_LEAVES = (
     ("collections", "Counter", "empty"),
     ("torch", "load", None),  # resolved only, never called
     ("torch.hub", "load", None),
+    # standard-library globals that are only referenced: the static check has nothing against
+    # them, the allowlist does
+    ("datetime", "date", None), ("colorsys", "rgb_to_hsv", None), ("decimal", "Decimal", None),
     # protocol-4 qualified names: only the exact dotted name may be looked up in the allowlist
     ("collections", "OrderedDict.fromkeys", None),
     ("argparse", "Namespace.__init__", None),
@@ -376,12 +380,12 @@ def _case_strategy():
                          "fractions.Fraction", "verif_sink.sink", "pickle.loads", "_pickle.loads"]),
         max_size=4, unique=True,
     )  # fmt: skip
-    return st.tuples(leaf, loaders, st.booleans(), adds, st.sampled_from(LAYERS), st.sampled_from(STREAMS))
+    return st.tuples(leaf, loaders, st.booleans(), adds, st.just(None), st.sampled_from(STREAMS))
 
 
 def shards(tier):
-    per = 120 if tier == "quick" else 30000
-    return [{"kind": "nest", "n": per, "idx": i} for i in range(12)]
+    per = 40 if tier == "quick" else 8000
+    return [{"kind": "nest", "n": per, "idx": i} for i in range(16)]
 
 
 def run_shard(spec, seed):
@@ -402,7 +406,7 @@ def run_shard(spec, seed):
                 for m, n in LOADER_GLOBALS[ld]:
                     if (m, n) not in base_allowlist() and f"{m}.{n}" not in adds:
                         adds.append(f"{m}.{n}")
-        for entry in ENTRY:
+        for entry, layer in itertools.product(ENTRY, LAYERS):
             f = check(leaf, loaders, entry, adds, layer, stream)
             allowed = set(base_allowlist()) | {tuple(a.rsplit(".", 1)) for a in adds}
             _, names = build(leaf, loaders)
